@@ -315,6 +315,23 @@ func genLocScenario(r *rand.Rand, base string, full bool) *locScenario {
 			y.WriteString("replacements:\n- path: " + p + "\n")
 			k.refs = append(k.refs, [2]string{"file", p})
 		}
+		if r.Intn(4) == 0 {
+			// builtin plugin configuration listed under generators / transformers / validators (processed after every
+			// native field): a configuration FILE is localized; a DIRECTORY there is an error, as for any file-typed field
+			field := pickS(r, []string{"transformers", "generators"})
+			sc.files[dir+"/plug-t.yaml"] = "apiVersion: builtin\nfieldSpecs:\n- create: true\n  path: metadata/labels\nkind: LabelTransformer\nlabels:\n  plug: in\nmetadata:\n  name: lt-" + base + "\n" // key-sorted: the localizer re-serialises plugin configurations
+			sc.files[dir+"/plug-g.yaml"] = "apiVersion: builtin\nkind: ConfigMapGenerator\nliterals:\n- a=b\nmetadata:\n  name: pg-" + base + "\n"
+			entry := "plug-t.yaml"
+			if field == "generators" {
+				entry = "plug-g.yaml"
+			}
+			if !clean && r.Intn(2) == 0 {
+				field = pickS(r, []string{"transformers", "generators", "validators"})
+				entry = pickS(r, append([]string{"sub", "data"}, roots...))
+			}
+			y.WriteString(field + ":\n- " + entry + "\n")
+			k.refs = append(k.refs, [2]string{"file", entry})
+		}
 		k.yaml = y.String()
 		sc.files[dir+"/"+k.name] = k.yaml
 	}
